@@ -16,6 +16,10 @@ for a in args:
     elif a == "@selftest": vs += group("selftest")
     elif a == "@all": vs += ["base"] + group("benign") + group("seeded") + group("selftest")
     else: vs.append(a)
+import tempfile, shutil, atexit
+SNAP = tempfile.mkdtemp(prefix="devrun-")      # the run works on a snapshot of the rule code, so that rule files can be edited while it runs
+for d_ in ("sa", "rules", "tables"): shutil.copytree(os.path.join(ROOT, d_), os.path.join(SNAP, d_), ignore=shutil.ignore_patterns("__pycache__"))
+atexit.register(lambda: shutil.rmtree(SNAP, ignore_errors=True))
 CODE = r'''
 import sys, os, importlib
 sys.path.insert(0, %r)
@@ -34,7 +38,7 @@ for cid in props:
     for r in res:
         if pref and not r.id.startswith(pref): continue
         for x in r.violations: print("V", r.id, (x.site.loc() if x.site else "-"), x.msg[:170], "|", x.key[:90])
-''' % (ROOT, ROOT)
+''' % (SNAP, ROOT)
 def one(v):
     env = dict(os.environ, VERIF_DEV_SKIP_OBL="1")
     p = subprocess.run([sys.executable, "-c", CODE, v, ",".join(props), pref or ""], env=env, capture_output=True, text=True)
